@@ -400,6 +400,11 @@ impl Property for C11 {
                 Ok(t) => {
                     final_texts.insert(k.to_string(), t);
                 }
+                Err(crate::drive::lsp::Answer::Timeout) => {
+                    // a backstop, not an oracle: under load a 30 s wait can run out
+                    srv.kill();
+                    return Verdict::Discard("backstop: formatting after quiescence not answered within the wait".into());
+                }
                 Err(a) => {
                     srv.kill();
                     return Verdict::fail("c11|no-answer", detail(format!("formatting {} after quiescence: {:?}", k, a)));
